@@ -14,25 +14,28 @@ RULE = {
              "short line, non-digit code, disconnect at a phase start or inside a reply) to each of the 5+n phases for n=1 (13 kinds, two read chunkings, EOF and "
              "timeout), n=2 (9 kinds), n=3 (6 kinds), cut where the conversation ends; every write (HELO, MAIL, each RCPT, DATA, body, final flush, QUIT) failing "
              "in turn on every {2xx,4xx,5xx} script for n=1..3, also with a 2.4 KB body, a partial last line and an unreadable message; message sizes 1015..1026 "
-             "(around the 1024-byte output buffer) x each write from DATA to QUIT failing x final reply 2xx/4xx/5xx; every byte string over "
+             "(around the 1024-byte output buffer) x each write from DATA to QUIT failing x final reply 2xx/4xx/5xx, the same with short writes (at most 1000 / 600 / 1 bytes per write() call, "
+             "every call around the end of the body failing) and with bodies ending in line ends, a dot-stuffed line or a CR at sizes 1012..1024; every byte string over "
              "{2,5,0,4,-,LF,CR,SP} up to length 5 as the greeting / MAIL reply / final-dot reply; seeded random conversations (random codes, up to 5 lines, "
              "NUL/CR/8-bit text, >5000-byte texts, random cut, 1-8 recipients, random failing write). The real qmail-rspawn.c report() on every output over "
              "{r,h,s,K,Z,D,x,NUL} up to length 6 with exit 0 and, for length <=2, every exit status 0..255 x {no signal, 1, 9, 11, 127, core flag}; and on the "
              "output of every smtp() run. The real main() of qmail-remote from the DNS result on (control files, resolver, ipme, tcpto, connect scripted): every lookup "
              "result x every list of up to 3 addresses (pref x is-me x tcpto-skip x connects/refused/timeout) x {good server, 554 greeting, silent server, failing write}. "
-             "Compared with the Lean models smtpRun/rreport/mainRun (report bytes, bytes received by the server, exit status, relayed line, tcpto_err calls); "
+             "Compared with the Lean models smtpRunB (smtp() with blast() over the 1024-byte smtpto buffer: report bytes, the exact bytes received by the server, the bytes of the failing write(), "
+             "exit status)/rreport/mainRun (relayed line, tcpto_err calls); "
              "oracle = kSound/rcptOrder/verdictOK(expect), strict also when the QUIT write fails/wireOrderQ/preOK/hostNamed/rspawnSound/rspawnClasses/noUpgrade/relayWithin on the "
              "implementation's output, reading the stream line by line; whether a failing write inside blast() is critical (must be flagged 'Possible duplicate!') is decided from the "
-             "bytes of that write (does it carry the last byte of the encoded message?), not from the client's flagcritical; "
+             "bytes of that write (does it carry the last byte of the encoded message?), not from the client's flagcritical; for a failing write of blast() additionally: wire ++ its bytes is a prefix of "
+             "commands ++ encoding, and the duplicate flag is present iff C09_flag_computed says so of the implementation's bytes (complete message and all but at most the 3-byte terminator handed over); "
              "non-trivial = distinct input whose verdict is not K or which has a multi-line reply (S), distinct exit-0 output containing NUL (R)",
 }
 RULE["thorough"] = RULE["quick"].replace("n=2 (9 kinds), n=3 (6 kinds)", "n=2 (13 kinds), n=3 (9 kinds)").replace("up to length 5 as", "up to length 6 as").replace("up to length 6 with exit 0", "up to length 8 with exit 0")
 ARGS = {"quick": "0 6000", "thorough": "1 200000"}
 ASSUME = [
     "the server is a byte stream plus the point where reads start failing and the write that fails; timeoutread/timeoutwrite return 0/-1 there (select/read/write themselves are not modelled)",
-    "substdio buffering is transparent (several read chunkings are run); the position of buffer-full flushes inside the body is observed, not modelled",
+    "substdio buffering of the reads (ssin, smtpfrom) is transparent (several read chunkings are run); the output buffer smtpto is modelled for blast() (Nq.RemoteBuf over Nq.Substdio), the command writes are one write() each (commands shorter than the buffer)",
     "main() is run from dns_mxip's return value on: control files (helohost me.example, no smtproutes), the resolver, ipme, tcpto's file and connect() are scripted answers; addrmangle is run on plain addresses only",
-    "the 1024-byte buffering of smtpto is not modelled: for a failing write inside blast() the driver computes from the bytes of that write (never from the client's flagcritical) whether it was issued after 'flagcritical = 1' (model input: all but at most the 3-byte terminator has then been written) and whether it carries the last byte of the encoded message (oracle: duplicate flag required)",
+    "blast() runs over the model of the 1024-byte smtpto buffer (substdio_put per piece, substdio_flush, allwrite with short writes): the model computes the writes, the bytes of a failing write() and on which side of 'flagcritical = 1' it falls; the harness names a failing write by its bytes only and never reads the client's flagcritical; write() itself (timeoutwrite/select) is a scripted answer: takes all / at most wchunk bytes / fails",
     "report() is called with the complete output and the wait status of qmail-remote (spawn.c main loop not modelled); in the harness the collected output is followed by '!' NUL and an ASan red zone, so any read past its end is visible",
     "unsigned long is 64 bits (the verdict comparisons are width-independent, Nq.Lemmas.RemoteSmtp)",
 ]
@@ -44,9 +47,9 @@ def case_line(d):
         return "R %s %s" % (d.get("wstat", "0"), d.get("in", "-"))
     if d.get("kind") == "M":
         return "M %s %s %s %s" % (d.get("dnsret", "0"), d.get("cands", "."), d.get("in", "-"), d.get("wk", "0"))
-    return "S %s %s %s %s %s %s %s %s %s %s" % (d.get("ip", "c0000219"), d.get("helo", "-"), d.get("sender", "-"), d.get("rcpts", "-"),
-                                                d.get("msg", "-"), d.get("msgerr", "0"), d.get("in", "-"), d.get("chunk", "0"),
-                                                d.get("wk", "0"), d.get("endmode", "0"))
+    return "S %s %s %s %s %s %s %s %s %s %s %s" % (d.get("ip", "c0000219"), d.get("helo", "-"), d.get("sender", "-"), d.get("rcpts", "-"),
+                                                   d.get("msg", "-"), d.get("msgerr", "0"), d.get("in", "-"), d.get("chunk", "0"),
+                                                   d.get("wk", "0"), d.get("endmode", "0"), d.get("wchunk", "0"))
 
 
 def mutations(dis, seed, per=300):
@@ -147,7 +150,7 @@ def main():
             open(rp, "w").write(case_line(kv(found)) + "\n")
         return found
     standard_verdict(c, ok, stats, disagree, oracle, errors,
-                     "smtpRun/rreport (Nq/RemoteSmtp.lean, Nq/RspawnReport.lean) vs qmail-remote.c smtp()/smtpcode() and qmail-rspawn.c report()",
+                     "smtpRunB/rreport (Nq/RemoteBuf.lean over Nq/RemoteSmtp.lean, Nq/RspawnReport.lean) vs qmail-remote.c smtp()/smtpcode() and qmail-rspawn.c report()",
                      nb, replay_hint=hint)
     c.finish()
 
